@@ -113,6 +113,15 @@ def run_case(case: Dict[str, Any], ctx) -> None:
     ctx.count("fit:forward", 2)
     ctx.nontrivial(sig_of(case))
     for fr, tag in ((A, "A"), (B, "B")):
+        if fr.res_out > tol and dtype in (torch.bfloat16, torch.float16):
+            from ..optable import reference_noise
+            try:
+                noise = reference_noise(op, cfg, dtype, sA if tag == "A" else sB, uA).get("__out__", 0.0)
+            except Exception:
+                noise = 0.0
+            if fr.res_out <= 8 * noise + tol:
+                ctx.count("lowp:within-noise-of-the-reference-op")
+                continue
         if fr.res_out > tol:
             ctx.violation(key("not-a-scalar-multiple"),
                           f"draw {tag}: residual {fr.res_out:.3e} > {tol:.1e} after fitting s={fr.s_out!r}",
